@@ -124,7 +124,7 @@ Proof.
         * apply in_map_iff. exists x. split; [exact B | rewrite A; left; reflexivity].
         * intros d Hd. apply in_map_iff in Hd. destruct Hd as [y [<- Hy]]. apply C. exact Hy. }
   destruct Hld as [ld [Hld Htight]]. exists ld. cbv zeta.
-  split; [rewrite Hos; exact Hs|]. split; [rewrite Hoe; exact He|]. split; [|split; [|split]].
+  split; [rewrite Hos; exact Hs|]. split; [rewrite Hoe; exact He|]. split; [|split; [|split; [|split]]].
   - rewrite (c08_ends_of_model cfg w st o _ Hcn Hf (conj Hrows Hdates)).
     unfold c08_release. rewrite <- (c08_bound_leaves cfg w st t (pbound cfg) Hcn Hw Hf Hcalc).
     apply c08_is_max_release.
@@ -144,6 +144,11 @@ Proof.
     rewrite Hrows. destruct (balance cfg).
     + destruct Hdt as [A [_ [B _]]]. split; assumption.
     + destruct Hdt as [A [B _]]. split; [exact A|]. unfold model_rows. rewrite obooked_t_model. exact B.
+  - intros Hnow Hnil. rewrite Hdays, (c08_own_rows_final _ _ _ _ _ _ _ _ _ _ F) in Hnil.
+    assert (En : new = []).
+    { destruct new as [|x rest]; [reflexivity|]. exfalso.
+      apply (f_equal (@length Z)) in Hnil. rewrite rev_length, map_length in Hnil. discriminate. }
+    subst new. rewrite Hrows. exact (c08_norows_holds cfg w st t d1 s e ext l F Hnow).
 Qed.
 
 (* the model's output passes the per-task oracle *)
